@@ -86,7 +86,7 @@ def struct_diff(t1, t2):
                         e['diff'] = '\n'.join(d)
                 put('values_changed', path, e)
         else:
-            if a != b:
+            if a is not b and a != b:     # an object is not different from itself (a NaN held by both inputs); two NaN objects are
                 put('values_changed', path, {'new_value': b, 'old_value': a})
     rec(t1, t2, 'root')
     return out
@@ -128,8 +128,9 @@ def run(ctx, impl_only=False):
             got = DF.canon_text(dd, 2)
         except DF.BadDiffText as e:
             ctx.violate(case, str(e)); continue
-        except OutOfUniverse:
-            ctx.count('out_of_universe'); continue
+        except OutOfUniverse as e:
+            # the definition's result is made of values of the universe: a reported value outside it is not one of them
+            ctx.violate(case, 'the result holds a value that is neither input nor a part of one: %s' % str(e)[:100]); continue
         except Exception as e:
             ctx.violate(case, 'DeepDiff raised %s: %s' % (type(e).__name__, str(e)[:100])); continue
         if got != spec:
@@ -139,8 +140,51 @@ def run(ctx, impl_only=False):
         reqs.append((case, t1, t2, True, 0, True, 2))
         if len(ctx.samples) < 5 and spec:
             ctx.sample({'t1': repr(t1)[:150], 't2': repr(t2)[:150], 'entries': len(spec)})
+    nan_family(ctx)
     if not impl_only:
         FAM.compare_with_model(ctx, reqs)
+
+
+def canon_repr(x):
+    """order-free printable form of a text result whose values may be outside the wire universe (NaN)"""
+    if isinstance(x, dict):
+        return ('d', tuple(sorted((repr(k), canon_repr(v)) for k, v in x.items())))
+    if isinstance(x, (set, frozenset)) or type(x).__name__ == 'SetOrdered':
+        return ('s', tuple(sorted(repr(e) for e in x)))
+    if isinstance(x, (list, tuple)):
+        return (type(x).__name__, tuple(canon_repr(e) for e in x))
+    return (type(x).__name__, repr(x))
+
+
+def nan_family(ctx):
+    """inputs that hold NaN: one NaN object at both sides is no difference (an object is not different from itself, as in Python's own
+    comparison of containers), two NaN objects are one; outside the model's float universe, so compared with the definition only"""
+    from deepdiff import DeepDiff
+    from ..gen import Gen
+    import copy
+    NAN = float('nan')
+    n = 600 if ctx.thorough() else 90
+    g = Gen(ctx.rng, scalars=[NAN, NAN, 0, 1, 2.5, 'a', None, True, float('inf')], keys=['a', 'b', 'c', 'k'], kinds=('list', 'tuple', 'dict'), max_depth=3, max_width=4)
+    pairs = [([NAN], [NAN]), ([NAN, 1], [NAN, 2]), ({'a': NAN, 'b': 1}, {'a': NAN, 'b': 1}), ({'a': NAN}, {'a': float('nan')}), ((NAN, [NAN, 'x']), (NAN, [NAN, 'y'])), (NAN, NAN),
+             ([NAN], [float('nan')]), ([NAN, NAN], [NAN]), ({'k': [1, NAN]}, {'k': [1, NAN], 'z': NAN})]
+    for _ in range(n):
+        t1 = g.container()
+        r = ctx.rng.random()
+        t2 = copy.deepcopy(t1) if r < 0.2 else g.edits(t1, ctx.rng.randint(1, 3))
+        pairs.append((t1, t2))
+    for (t1, t2) in pairs:
+        case = {'t1': repr(t1), 't2': repr(t2), 'kind': 'nan-sharing', 'note': 'every nan of the generated pairs is one object'}
+        ctx.evaluations += 1
+        spec = struct_diff(t1, t2)
+        if spec:
+            ctx.nontriv((repr(t1), repr(t2), 'nan'))
+        ctx.count('nan_family:' + ('empty' if not spec else 'nonempty'))
+        try:
+            dd = DeepDiff(t1, t2, zip_ordered_iterables=True, threshold_to_diff_deeper=0, verbose_level=2)
+        except Exception as e:
+            ctx.violate(case, 'DeepDiff raised %s: %s' % (type(e).__name__, str(e)[:100])); continue
+        if canon_repr(dict(dd)) != canon_repr(spec):
+            ctx.violate(case, 'positional result differs from the recursive definition (inputs holding NaN): %s vs %s' % (str(dict(dd))[:150], str(spec)[:150]))
 
 
 def search(ctx):
